@@ -776,6 +776,63 @@ def r9(k: Kit) -> None:
               'keeps typing grows the line (and the re-echo of it) without '
               'bound', fi.loc(fi.node))
 
+# ------------------------------------------------------------------ R10
+
+def r10(k: Kit) -> None:
+    from ..absint import evaluate_total, Obj, NotEvaluable
+    rep = k.rep
+    idx = k.idx
+    rep.rule('C10.R10', '_process_disconnect as a table over (reason code, '
+             'connection still waiting for kex/auth): the owner is told of '
+             'an error for every code except BY_APPLICATION after the '
+             'handshake; a peer that disconnects while connect() is still '
+             'waiting never yields a "successful" dead connection')
+    fi = k.func('connection.SSHConnection._process_disconnect')
+    by_app = idx.const('constants', 'DISC_BY_APPLICATION')
+    bad = None
+    n = 0
+    for code in (by_app, 2, 1, 15):
+        for wait in (None, 'kex', 'auth'):
+            def on_call(nm, args, env, code=code):
+                if nm.endswith('get_uint32'):
+                    return code
+                if nm.endswith('get_string'):
+                    return b'x'
+                if nm == 'self._decode_utf8':
+                    return 'x'
+                if nm == 'construct_disc_error':
+                    return Obj('EXC')
+                return Obj('x')
+            try:
+                outs = evaluate_total(idx, fi.module, fi.node.body,
+                                      {'self._wait': wait},
+                                      {'packet': Obj('packet')}, on_call)
+            except NotEvaluable as exc:
+                rep.error('C10.R10', 'not-evaluable', str(exc))
+                return
+            for extra, o in outs:
+                n += 1
+                fc = o.called('self._force_close')
+                if len(fc) != 1:
+                    bad = bad or f'_force_close called {len(fc)} times'
+                    continue
+                arg = fc[0][0] if fc[0] else None
+                clean_ok = code == by_app and not wait
+                if arg is None and not clean_ok:
+                    bad = bad or (
+                        f'DISCONNECT code {code} with the connection '
+                        f'{"waiting for " + wait if wait else "established"}'
+                        + (f' and {extra}' if extra else '') +
+                        ' is passed on as a clean close: connect() returns '
+                        'a dead connection as if login had succeeded')
+                if arg is not None and clean_ok:
+                    bad = bad or ('BY_APPLICATION after the handshake is '
+                                  'reported as an error')
+    rep.count('eval.disconnect_states', n)
+    rep.check(bad is None, 'C10.R10', key(fi, 'disconnect table'),
+              f'{n} states: error reported unless BY_APPLICATION after the '
+              'handshake', str(bad), fi.loc(fi.node))
+
 
 def run(idx, rep, tier):
     k = Kit(idx, rep)
@@ -791,3 +848,4 @@ def run(idx, rep, tier):
     r7(k)
     r8(k)
     r9(k)
+    r10(k)
